@@ -2,7 +2,9 @@
    The theorems are about the tree construction and the cleaning of names and values; the byte layers (chunk headers,
    string pool, chunk loop) are part of the model and are compared with the code on every run. *)
 From Coq Require Import ZArith List Bool.
-Require Import V.Lib.Val V.Lib.Result V.Axml.PoolModel V.Axml.AxmlModel V.Axml.AxmlProofs.
+Require Import V.Lib.Val V.Lib.Result V.Axml.PoolModel V.Axml.AxmlModel V.Axml.AxmlProofs V.Axml.PoolProofs.
+Import ListNotations.
+Open Scope Z_scope.
 Import ListNotations.
 Open Scope Z_scope.
 
@@ -24,6 +26,31 @@ Print Assumptions C26_clean_values_are_kept.
 (* names: what is printed consists of name characters only *)
 Theorem C26_printed_names_are_names : forall nsmap prefix name p n, fix_name nsmap prefix name = Ok (p, n) -> forallb name_char n = true.
 Proof. exact fix_name_is_a_name. Qed.
+
+(* the string pool, UTF-16 or UTF-8: for every list of strings of valid code points (supplementary ones as surrogate pairs or
+   four-byte sequences; lengths with one- and two-unit prefixes), anything after the last entry and anything after the
+   chunk, parsing the chunk and asking for string i gives exactly the i-th string *)
+Theorem C26_pool_strings_are_read_back : forall (utf8_flag : bool) ss padding after i s,
+  28 + 4 * Z.of_nat (length ss) + len (concat (map (if utf8_flag then entry8 else entry16) ss)) < 4294967296 ->
+  Forall (fits utf8_flag) ss -> nthz ss i = Some s ->
+  (do p <- parse_pool (pool_bytes utf8_flag ss padding ++ after) (pool_size utf8_flag ss padding); get_string p i) = Ok s.
+Proof. exact string_of_parsed_pool. Qed.
+Print Assumptions C26_pool_strings_are_read_back.
+Example C26_pool_nonvacuous :
+  let ss := [[104; 105]; [233; 128512; 8364]; []] in
+  Forall (fits true) ss /\ Forall (fits false) ss /\
+  (do p <- parse_pool (pool_bytes true ss [0; 0] ++ [7]) (pool_size true ss [0; 0]); get_string p 1) = Ok [233; 128512; 8364] /\
+  (do p <- parse_pool (pool_bytes false ss [] ++ [7]) (pool_size false ss []); get_string p 1) = Ok [233; 128512; 8364] /\
+  entry8 [233; 128512] = [3; 6; 195; 169; 240; 159; 152; 128; 0].
+Proof.
+  cbv zeta. assert (V : forall c, (0 <=? c) && (c <? 1114112) && negb ((55296 <=? c) && (c <? 57344)) = true -> valid_cp c).
+  { intros c H. unfold valid_cp. apply andb_prop in H as [H1 H2]. apply andb_prop in H1 as [H0 H1]. apply Z.leb_le in H0. apply Z.ltb_lt in H1.
+    split; [auto|]. intros [A B]. apply Z.leb_le in A. apply Z.ltb_lt in B. rewrite A, B in H2. discriminate. }
+  assert (F : forall b, Forall (fits b) [[104; 105]; [233; 128512; 8364]; []]).
+  { intros b. repeat (apply Forall_cons || apply Forall_nil); (split; [repeat (apply Forall_cons || apply Forall_nil); apply V; vm_compute; reflexivity|]);
+      destruct b; try split; vm_compute; reflexivity. }
+  split; [apply F|]. split; [apply F|]. split; [vm_compute; reflexivity|]. split; vm_compute; reflexivity.
+Qed.
 
 (* <a>foo<b/>bar<c>in</c>tail</a> *)
 Example C26_nonvacuous :
